@@ -460,6 +460,8 @@ def parse_blocks_stable(
             block = handler(cell_grid, origin=origin, fixer=fixer)
         except ValueError as e:
             issue_tracker.add_error(str(e), load_location=origin.input_location)
+            # only reached with an issue tracker that collects instead of raising
+            return
 
         if block is not None:
             yield block_type, block
